@@ -354,10 +354,14 @@ package actor
 // doKill: ONE OnKill to every child, with the same poison flag, then the kill chain
 //@ func (*Context).doKill
 //@   funcspec behavior preserves ctxwf(c), watchersOK(c), c.zombie, c.state, c.restarting, c.ref, c.parent, c.system, c.options, c.mailbox, c.watchers, c.children, c.envelop, c.actor, c.behaviorStack, c.scheduler
+// completing the dying actor's pending Asks touches futures and the registration table only (assumed of the closers)
+//@   callspec removeFuturesByAgentPath preserves ctxwf(c), watchersOK(c), schedok(c), zombieNoJobs(c), released1(c), c.zombie, c.state, c.restarting, c.ref, c.parent, c.system, c.options, c.mailbox, c.watchers, c.children, c.envelop, c.actor, c.behaviorStack, c.scheduler, message.Poison, message.Reason
+//@   callspec removeFuturesByAgentPath ensures forall p string :: p in c.children ==> c.children[p] != nil && c.children[p] == old(c.children[p])
 //@   requires ctxwf(c) && message != nil && c.envelop != nil && behavior != nil
-//@   requires watchersOK(c)
+//@   requires watchersOK(c) && schedok(c) && zombieNoJobs(c) && released1(c)
+//@   requires c.system.futureAgents != nil && !held(c.system.futureLock) && regfut(c.system)
 //@   requires forall p string :: p in c.children ==> c.children[p] != nil
-//@   modifies c.children[*], c.state, c.envelop, c.actor, c.behaviorStack.behaviors, c.zombie, c.restarting, anyold, gmap(told), gmap(toldn), gmap(tells), gmap(unregistered), gmap(unsuball), gmap(published), gmap(resumes)
+//@   modifies c.children[*], c.state, c.envelop, c.actor, c.behaviorStack.behaviors, c.zombie, c.restarting, c.scheduler.jobKeys[*], anyold, gmap(told), gmap(toldn), gmap(tells), gmap(unregistered), gmap(unsuball), gmap(published), gmap(resumes), gmap(deleted), gmap(chclosed), gmap(piped), gmap(pipedn), ghost(calls_closer), ghost(calls_behavior)
 //@   ensures  gcount(toldn, kKill(!message.Poison)) == old(gcount(toldn, kKill(!message.Poison))) + old(len(c.children))
 //@   ensures  forall p string :: old(p in c.children) ==> gcount(told, old(c.children[p]), kKill(!message.Poison)) > old(gcount(told, old(c.children[p]), kKill(!message.Poison)))
 //@   ensures  gcount(unregistered, c) <= old(gcount(unregistered, c)) + 1
